@@ -101,6 +101,16 @@ func (w *c20World) buildState(dir, ext, state string) (needed, possible, indexOK
 		flip(w.names[1], 5)
 	case "misplaced":
 		disk[w.names[0]], disk[w.names[1]] = disk[w.names[1]], disk[w.names[0]]
+	case "appended":
+		// zero bytes inside the padding of the partial last slice (slice size 64): every slice still matches in place
+		d := append([]byte{}, disk[w.names[0]]...)
+		pad := (64 - len(d)%64) % 64
+		if pad < 2 {
+			d = append(d, make([]byte, 64+1)...) // a whole extra slice of zeros plus one byte: still only trailing bytes
+		} else {
+			d = append(d, make([]byte, pad/2)...)
+		}
+		disk[w.names[0]] = d
 	}
 	if ext == "par2" {
 		var vols []string
